@@ -119,7 +119,9 @@ def report(prop, tier, seed, spec, results, kani_results, wall):
             if name.endswith('__canary'):
                 continue
             obligations += 1
-            ok = bool(t.get('success'))
+            # a unit that passed has every obligation discharged (a function that failed in the whole-file run and was
+            # proved in its isolated re-run is discharged too)
+            ok = bool(t.get('success')) or (r.status == 'pass' and name.split('::', 1)[-1] not in fails and name not in fails)
             if ok:
                 discharged += 1
             if len(samples) < 12:
